@@ -462,7 +462,12 @@ def resolveMatchFn (grokAlias : Option Nat) (p : Pat) (c : Ctx) : Out Ctx :=
   else if n = "integerExt" then withFilter .integerExt "integerExtStr"
   else if n = "number" then withFilter .number "numberStr"
   else if n = "numberExt" then withFilter .numberExt "numberExtStr"
-  else if n = "date" then .oom
+  else if n = "date" then
+    -- the date matcher itself (time_format_to_regex, strptime conversion) is outside the model
+    match p.fn.args with
+    | some [.lit (.str _)] => .oom
+    | some [.lit (.str _), _] => .oom
+    | _ => .err .invalidArgs
   else .ok (c.append p.fn.name)
 
 /-- `resolve_grok_pattern`; `self` is `parse_grok_rule` (used for alias definitions). -/
